@@ -46,6 +46,7 @@ def plan(tier, seed):
                                 continue        # no cell: Cartesian only
                             scs.append(dict(kind='write', cell=ci, fr=fi, ts=ts, xc=xc, ch=ch, fract=fract))
     scs += [dict(kind='read', i=i) for i in range(len(read_menu()))]
+    scs += [dict(kind='many', n=n, fract=f) for n in (120, 1003) for f in (1, 0)]
     return dict(scenarios=scs, exhaustive=True, chunk=8,
                 menus=dict(cells=[c[0] for c in CELLS], coordinates=[f[0] for f in FRACS], term_shapes=TSHAPES_Q if q else 'all 81 count tuples in {0,1,3}^4 + (2,3,0,1)', extra_columns_per_kind=XCOLS, charges=CHARGES, output=['fractional', 'Cartesian'],
                            read_side=[r[0] for r in read_menu()]),
@@ -67,7 +68,7 @@ def build(sc):
     nx = sc['xc']
     if nx:
         kw['extra_atom_labels'] = ['_atom_site_occupancy', '_atom_site_my_tag'][:nx]
-        kw['extra_atom_fields'] = [('1.0', 'a%d' % i)[:nx] for i in range(5)]
+        kw['extra_atom_fields'] = [('1.0', 'a%d' % i if i != 3 else 'a-long-value-without-blanks-that-is-longer-than-32-characters_%d' % i)[:nx] for i in range(5)]
     for k, nm in zip(KINDS, TSHAPES[sc['ts']]):
         t = TUPS[k][:nm]; kw[ATTR[k]] = t; kw[k + '_types'] = list(range(len(t)))
         if nx and t and k == 'improper':
@@ -76,7 +77,7 @@ def build(sc):
         if nx and t and k != 'improper':
             cif = {'bond': 'bond', 'angle': 'angle', 'dihedral': 'torsion'}[k]
             kw['extra_%s_labels' % k] = ['_geom_%s_distance' % cif, '_geom_%s_my_tag' % cif][:nx] if k == 'bond' else ['_geom_%s_value' % cif, '_geom_%s_my_tag' % cif][:nx]
-            kw['extra_%s_fields' % k] = [('%d.5' % j, '%s%d' % (k[0], j))[:nx] for j in range(len(t))]
+            kw['extra_%s_fields' % k] = [('%d.5' % j, '%s%d' % (k[0], j) if j != 1 else 'harmonic_12.345678_-1_2_C_R_C_R_O_1_H__fitted_set_3_%s%d' % (k[0], j))[:nx] for j in range(len(t))]
     return Atoms(**kw)
 
 
@@ -271,8 +272,19 @@ def run(sc, ctx):
                 bad('independent-reader', e.split(',')[0][:30], '%s: %s' % (name, e), text=text)
         out['nontrivial'] = 1
         return out
-    a, err = call(build, sc); fract = sc['fract']
-    if err:
+    if sc['kind'] == 'many':
+        # many atoms of one element (labels Cu100..., C1000...) with terms that refer to the late atoms
+        n = sc['n']; el = 'Cu' if n < 1000 else 'C'
+        cell = np.diag([4.0 * 12, 4.0 * 12, 4.0 * 12])
+        pos = np.array([(4.0 * (i % 12) + 0.5, 4.0 * ((i // 12) % 12) + 0.5, 4.0 * (i // 144) + 0.5) for i in range(n)] + [(1.0, 2.0, 46.0), (3.0, 2.0, 46.5)])
+        bonds = [(i, i + 1) for i in range(95, n - 1, 7)] + [(n, n - 1), (n + 1, 9)]
+        a = Atoms(elements=[el] * n + ['O', 'O'], positions=pos, cell=cell, bonds=bonds, bond_types=[0] * len(bonds), angles=[(n - 2, n - 1, n), (9, 10, 99)], angle_types=[0, 0],
+                  dihedrals=[(n - 3, n - 2, n - 1, n), (99, 100, 101, 9)], dihedral_types=[0, 0])
+        sc = dict(sc, cell=0, fr=0, ts=0, xc=0, ch=0)
+    else:
+        a, err = call(build, sc)
+    fract = sc['fract']
+    if sc['kind'] != 'many' and err:
         bad('construct', 'exc:' + exc_sig(err), 'a consistent structure (terms %r, %d extra column(s) per kind) cannot be constructed: %r' % (TSHAPES[sc['ts']], sc['xc'], err[0]), tb=err[1]); return out
     before = raw_state(a)
     T1, err = call(save, a, fract); out['evals'] += 1
@@ -300,7 +312,7 @@ def run(sc, ctx):
     c, err2 = call(Atoms.load_p1_cif, io.StringIO(T2)) if not err else (None, err)
     T3, err3 = call(save, c, fract) if not (err or err2) else (None, err or err2)
     out['evals'] += 3; out['compared'] += 1
-    incell = sc['fr'] in (0, 1) or a.cell is None or not fract
+    incell = sc['kind'] == 'many' or sc['fr'] in (0, 1) or a.cell is None or not fract
     if err3:
         bad('rewrite', 'exc:' + exc_sig(err3), 'second write/read pass raised %r' % (err3[0],), text=T1)
     else:
